@@ -9,45 +9,55 @@ from functools import lru_cache
 import framework as F
 
 ID = "C20"
-GEN = ["Interpolation", "Extrapolation"]
+GEN = ["Interpolation", "Extrapolation", "Distributions", "SpikeMath"]
 LEVEL = "proof"
-TECHNIQUE = ("Coq proof over the reals: algebraic / exp-ln identities about the GENERATED interp_*/extrap_* kernels; list "
-             "induction for the ISI pipeline and for the Victor-Purpura dynamic programme (refinement to the recursive "
-             "edit-distance and to a minimum over edit scripts, then metric laws); real analysis (derivatives, series) for the "
-             "hand-transcribed distribution formulas; correspondence of every model with the real functions; numeric "
-             "quadrature of the implementation's densities as a test for the improper-integral sub-claims")
-LEVEL_TEXT = ("Machine-checked proofs (Coq reals) that: every shipped matching extrapolation/interpolation pair round-trips "
-              "(stated about the kernels re-translated from the source on every run; side conditions are only the divisions "
-              "actually performed), linear interpolation stays between and at the ends equals the brackets; the isi pipeline "
-              "(pad/nonzero/split/pad_sequence/diff, both layouts) equals the list of successive spike-time differences padded "
-              "with NaN and re-integrates to the spike times, for every raster; the Victor-Purpura grid computation equals the "
-              "recursive edit distance = minimum cost over edit scripts, and is non-negative, within |n-m|..n+m, equal to the "
-              "documented limits at cost 0 and inf (so the scalar shortcuts agree with the dynamic programme), symmetric, zero "
-              "exactly on equal trains (finite positive cost), monotone in the cost and satisfies the triangle inequality; for "
-              "Normal/LogNormal/Poisson: exp(log-density)=density, log-cdf=log(cdf), density = derivative of the cdf and "
-              "integrates to cdf differences, cdf limits and total mass one, first/second moments equal the stated mean/variance "
-              "(antiderivatives + limits; Poisson as convergent series, cdf = partial sum of the pmf), mean/variance parameter "
-              "round trips in both directions.")
-LEVEL_NOTE = ("Trusted: Coq kernel + stdlib real axioms; translator for the 14 interp/extrap kernels; the hand-transcribed models "
-              "of isi, victor_purpura_pair_dist and inferno.stats formulas (C20/Model.v) validated by correspondence only; "
-              "special functions enter the theorems through their defining facts, as hypotheses (erf' = 2/sqrt(pi) exp(-x^2) - a "
-              "function with this derivative is exhibited in nonvacuous.v; erf(+-inf) = +-1, i.e. the Gaussian integral, is assumed "
-              "and NOT derived) or built into the model (lgamma(k+1) = ln k!, gammaincc(a, x) = e^-x sum_{j<a} x^j/j! for integer a). "
-              "Deviation from the property text, proved: at cost = inf d(a,a) = 2|a| (documented in the docstring), at cost 0 the "
-              "distance is a pseudo-metric. NOT proved: float rounding; non-integer Poisson support in pmf; the quadrature / series "
-              "sums run on the implementation are a numeric test only.")
-TRUSTED = ["C20/Model.v: hand transcription of inferno/core/math.py:255-402 (isi, victor_purpura_pair_dist) and "
-           "inferno/stats/distributions.py:12-707, tied to the code by the correspondence check only",
-           "special functions: torch.special.erf, torch.lgamma, torch.special.gammaincc, torch.special.xlogy, expm1 are given "
-           "their mathematical meaning (float instance: series implementations in C20/ModelExec.v, compared at 1e-9)"]
+TECHNIQUE = ("Coq proof over the reals about kernels GENERATED from the source on every run: the 14 interp_*/extrap_* kernels, "
+             "the 20 closed-form classmethods of inferno.stats (math.tau and erf / lgamma / gammaincc as parameters) and the "
+             "element-wise bodies inside isi and the Victor-Purpura loops; list induction for the hand-modelled sequence code "
+             "around them (ISI pipeline, dynamic-programme grid; refinement to the recursive edit distance and to a minimum over "
+             "edit scripts, then metric laws); real analysis (derivatives, limits, series) for the distributions; correspondence "
+             "of every model with the real functions; numeric quadrature of the implementation's densities as a labelled test")
+LEVEL_TEXT = ("Machine-checked proofs (Coq reals), stated about definitions re-translated from the source on every run, that: every "
+              "shipped matching extrapolation/interpolation pair round-trips (side conditions are only the divisions actually "
+              "performed), linear interpolation stays between and at the ends equals the brackets; the isi pipeline "
+              "(pad/nonzero/split/pad_sequence/diff, both layouts; the spike-time expression generated) equals the successive "
+              "spike-time differences padded with NaN and re-integrates to the spike times, for every raster; the Victor-Purpura "
+              "grid computation (loop body generated) equals the recursive edit distance = minimum cost over edit scripts, and is "
+              "non-negative, within |n-m|..n+m, equal to the documented limits at cost 0 and inf (so the scalar shortcuts agree "
+              "with the dynamic programme), symmetric, zero exactly on equal trains (finite positive cost), monotone in the cost "
+              "and satisfies the triangle inequality; for the generated Normal/LogNormal/Poisson formulas: "
+              "exp(log-density)=density, log-cdf=log(cdf), density = derivative of the cdf and integrates to cdf differences, cdf "
+              "limits and total mass one, first/second moments equal the stated mean/variance (antiderivatives + limits; Poisson "
+              "as convergent series, cdf = partial sum of the pmf, the rate = 0 point mass), mean/variance parameter round trips "
+              "in both directions.")
+LEVEL_NOTE = ("Trusted: Coq kernel + stdlib real axioms; the translator's reading of the Python subset (now including classmethods, "
+              "torch.log/sqrt/floor, x ** k for a literal k, xlogy and expm1 by their definitions, `_astensorsfloat`/`astensors` as "
+              "the identity per element, math.tau and erf/lgamma/gammaincc as parameters); the hand-written SEQUENCE models of isi "
+              "and victor_purpura_pair_dist (C20/Model.v: pad/nonzero/split/pad_sequence/diff, the two loops over the grid, the "
+              "cost = inf reading of nan_to_num) and the explicit-infinity reading of Poisson at rate 0, validated by correspondence "
+              "only. Special functions enter the theorems through hypotheses on the parameter: erf' = 2/sqrt(pi) exp(-x^2), "
+              "lgamma(k+1) = ln k!, gammaincc(a, x) = e^-x sum_{j<a} x^j/j! for integer a (functions with these properties are "
+              "exhibited in nonvacuous.v); erf(+-inf) = +-1, i.e. the Gaussian integral, is assumed and NOT derived. Deviation from "
+              "the property text, proved: at cost = inf d(a,a) = 2|a| (documented in the docstring), at cost 0 the distance is a "
+              "pseudo-metric. NOT proved: float rounding; non-integer Poisson support in pmf; the quadrature / series sums run on "
+              "the implementation are a numeric test only. Not translated: validate, sample, sample_mv.")
+TRUSTED = ["C20/Model.v: hand-written sequence code of inferno/core/math.py:255-402 (isi: pad/nonzero/split/pad_sequence/diff; "
+           "victor_purpura_pair_dist: grid initialisation, the two loops, cost = inf) around the generated element-wise "
+           "expressions, tied to the code by the correspondence check only",
+           "special functions: torch.special.erf, torch.lgamma, torch.special.gammaincc are parameters of the generated "
+           "functions (float instance: series implementations in C20/ModelExec.v, compared at 1e-9); xlogy, expm1, floor are "
+           "read by their mathematical definitions in the translator"]
 ASSUMES = ["erf has derivative 2/sqrt(pi) exp(-z^2) (hypothesis of the calculus theorems; satisfiable: nonvacuous.v)",
            "erf tends to +-1 at +-infinity (hypothesis of the total-mass / moment-limit theorems; not derived in Coq)",
-           "gammaincc(a, x) = exp(-x) sum_{j<a} x^j/j! for integer a >= 1 (DLMF 8.4.10), lgamma(k+1) = ln(k!)"]
-EXPLANATION = ("interp/extrap theorems are about Gen/*.v (re-translated each run); isi / Victor-Purpura / stats theorems are about "
-               "C20/Model.v and refine it to the independent specifications in C20/Spec.v; the harness runs Model.v in binary64 "
-               "inside Coq against the real functions and evaluates the property's laws directly on the implementation.")
+           "gammaincc(a, x) = exp(-x) sum_{j<a} x^j/j! for integer a >= 1 (DLMF 8.4.10), lgamma(k+1) = ln(k!) "
+           "(hypotheses on the function parameters of the generated Poisson formulas; satisfiable: nonvacuous.v)"]
+EXPLANATION = ("interp/extrap, distribution and loop-body theorems are about Gen/*.v (re-translated each run: an edit of a formula "
+               "re-checks them); the isi / Victor-Purpura sequence theorems are about C20/Model.v, which calls the generated "
+               "expressions, and refine it to the independent specifications in C20/Spec.v; the harness runs the generated and "
+               "hand-written definitions in binary64 inside Coq against the real functions and evaluates the property's laws "
+               "directly on the implementation.")
 HEADER = ("From Coq Require Import List ZArith Bool PrimFloat.\n"
-          "From Inferno Require Import Base.NumF C20.Model C20.ModelExec.\n"
+          "From Inferno Require Import Base.NumF Gen.Distributions C20.Model C20.ModelExec.\n"
           "Import ListNotations.\nOpen Scope float_scope.\n")
 IMPL = os.path.join(F.VERIF, "tools", "impl", "c20_impl.py")
 
